@@ -5,6 +5,9 @@ from ..r_codebooks import rule_charge_spellings
 from ..r_reaction import rule_role_zip as _rule_role_zip
 from ..r_codebooks import rule_closure_slots as _rule_closure_slots
 from ..r_hygiene import rule_hygiene as _rule_hygiene
+from ..r_readers import rule_tokenizer_rejections as _rule_tok_rej
+from ..r_alias import rule_retry_flush as _rule_retry_flush
+from ..r_codebooks import rule_cx_radical_lists as _rule_cxr
 
 LEVEL = 'other'
 EXEMPT = {('_convert', 'create_molecule', 'AtomNotFound'): 'infeasible for the daylight readers: every bond end was just inserted by the same parser '
@@ -27,3 +30,6 @@ def run(ck, repo):
     _rule_role_zip(ck, repo, 'C03.D1-role-pairing', lambda f: f.module.name == 'chython.files.daylight.smiles', floor=1)
     _rule_closure_slots(ck, repo, 'C03.D2-closure-slots')
     _rule_hygiene(ck, repo, 'C03.H-dataflow-hygiene', 'C03')
+    _rule_tok_rej(ck, repo, 'C03.D3-tokenizer-rejections')
+    _rule_retry_flush(ck, repo, 'C03.D5-retry-flush', ['chython.files.daylight.smiles'], 1)
+    _rule_cxr(ck, repo, 'C03.D2-cx-radical-lists', ['chython.files.daylight.smiles', 'chython.files.daylight.smarts'])
